@@ -81,6 +81,11 @@ def gen_case(rng, tier="quick"):
         m["complex"] = True
         m["phases"] = [_r(rng, 0.0, 6.28) for _ in range(d)]
         m["n_steps"] = rng.randrange(2, 7)
+    if d == 4 and kind not in ("commuting", "zero") and m["n_steps"] > 12:
+        # bond dimensions: a non-commuting d=4 model with more than ~14
+        # imaginary-time steps takes minutes (measured: 16 steps 48 s, 20
+        # steps 108 s, 31 steps > 400 s); nothing would be learned from it
+        m["n_steps"] = 12
     # a constant added to the Hamiltonian changes nothing physically, but it
     # moves every Boltzmann weight by exp(-shift/T): relative truncations
     # must keep working when all weights are tiny (or huge)
@@ -109,6 +114,13 @@ def gen_case(rng, tier="quick"):
             else:
                 pre.append({"coupling": [_r(rng, -1.0, 1.0)
                                          for _ in range(d)]})
+        for v in pre:
+            # the prelude is a disturbance, not a workload: a strongly
+            # coupled low-temperature variant of a many-step model in
+            # dimension 4 can take minutes (bond dimensions), so the
+            # variants of long models use few steps
+            if "n_steps" not in v and m["n_steps"] > 8:
+                v["n_steps"] = 8
         case["prelude"] = pre
     return case
 
